@@ -180,6 +180,7 @@ type vfMetaServed struct {
 }
 
 type vfSimConn struct {
+	dead         bool // set under sim.mu when the simulator closes the connection (broker down): nothing arriving on it is applied any more
 	silent       int32
 	id           int
 	broker       *vfBrokerState
@@ -424,6 +425,7 @@ func (s *vfSim) setBrokerUp(id int32, up bool) {
 	if !up {
 		for _, c := range s.conns {
 			if c.broker == b {
+				c.dead = true
 				toClose = append(toClose, c)
 			}
 		}
@@ -1003,6 +1005,12 @@ func (c *vfSimConn) handleProduce(version int16, body []byte, wireSize int) ([]b
 	}
 	var plan []planned
 	s.mu.Lock()
+	if c.dead {
+		// the broker dropped this connection before it got to the request: a request is either applied before the
+		// connection loss or never (a goroutine that was descheduled in between must not apply it late)
+		s.mu.Unlock()
+		return nil, "close"
+	}
 	reqAction := ""
 	var timing []vfFault
 	for i := range parts {
